@@ -278,7 +278,16 @@ static enum DeviceState vstore_append(struct Storage* s, const struct VideoFrame
     const struct vm_store_cfg* cfg = &VM.store[d->idx];
     int k = d->appends_in_run++;
     logcall(d, VC_APPEND, (int)*nbytes); monitor(d, VC_APPEND);
-    if (cfg->append_ms > 0) vs_sleep_ms(cfg->append_ms);
+    if (cfg->append_ms > 0) {
+        // zero-copy stability: the packet belongs to the storage device until append returns, however long that takes
+        uint64_t h0 = 1469598103934665603ull, h1 = h0;
+        const uint8_t* q = (const uint8_t*)frames;
+        for (size_t i = 0; i < *nbytes; ++i) h0 = (h0 ^ q[i]) * 1099511628211ull;
+        vs_sleep_ms(cfg->append_ms);
+        for (size_t i = 0; i < *nbytes; ++i) h1 = (h1 ^ q[i]) * 1099511628211ull;
+        if (h0 != h1) vs_fail("C04:packet-changed-during-append", "the %zu-byte packet handed to vstore%d changed while the (slow) append was still running", *nbytes, d->idx);
+        vs_event(48);
+    }
     if (cfg->fail_append_at == k) { vs_event(41); d->started = 0; d->armed = 0; d->self_stops++; /* a storage that fails leaves the running state by itself */ return DeviceState_AwaitingConfiguration; }
     const uint8_t* beg = (const uint8_t*)frames;
     const uint8_t* end = beg + *nbytes;
